@@ -50,6 +50,10 @@ CHECKS = {
    "bounded-exhaustive hello grammar through real session establishment, both exchange orders",
    "Every hello of the grammar {base subsets} x {session-id shapes incl. 0, 2^32, duplicates, missing} x {namespace spellings} x element order x duplicate/truncated elements, in both orders of the simultaneous hello exchange; established iff well-formed, valid id and a base version in common with what the client put on the wire; version = highest common; the first request must be framed as the negotiated version requires.",
    "MemTransport level; the framing clause on the real transports is added by E4.", "DESIGN.md §2 E3 C12"),
+ "C10": ("E3", "exploration",
+   "bounded-exhaustive parameter x adversarial-value enumeration judged by an independent XML parser (python expat)",
+   "Every text-valued parameter of every operation (tokens, XPath select, instance names, log messages, text/set/JSON payloads, URLs), pairs of parameters, verbatim fragments and the agent's own policy payloads (names x expressions, update and delete) are serialised by the real request path for every value of an adversarial alphabet; expat must see exactly one well-formed document followed by the only occurrence of the delimiter and recover each value unchanged.",
+   "Characters XML 1.0 cannot carry and fragments that contain the delimiter themselves are outside the alphabet.", "DESIGN.md §2 E3 C10"),
 }
 
 NOT_YET = "check not built yet (construction in progress; see DESIGN.md)"
